@@ -2632,25 +2632,42 @@ def namespace_to_flowir(
 
     pattern_name = re.compile(SignatureNamePattern)
 
+    used_ids: typing.Set[typing.Tuple[int, str]] = set()
+    naming_errors = []
+
     for _, comp in components.items():
         assert isinstance(comp.scope.template, Component)
 
-        if comp.step_name not in component_names:
-            component_names[comp.step_name] = 0
+        prior = component_names.get(comp.step_name, -1)
+        while True:
+            prior += 1
             name = comp.step_name
-        else:
-            component_names[comp.step_name] += 1
-            prior = component_names[comp.step_name]
-            name = "-".join((comp.step_name, number_to_roman_like_numeral(prior)))
+            if prior > 0:
+                name = "-".join((comp.step_name, number_to_roman_like_numeral(prior)))
+            match = pattern_name.fullmatch(name)
+            if match is None:
+                break
+            comp_id = (int(match.group("stage") or 0), match.group("name"))
+            if comp_id not in used_ids:
+                break
+        component_names[comp.step_name] = prior
 
+        if match is None:
+            naming_errors.append(experiment.model.errors.DSLInvalidFieldError(
+                location=comp.scope.dsl_location(),
+                underlying_error=ValueError(f"The step {'/'.join(comp.scope.location)} instantiates a Component but "
+                                            f"its name does not match {SignatureNamePattern}")
+            ))
+            continue
 
-        match = pattern_name.fullmatch(name)
-        match_groups = match.groupdict()
-
-        uid_to_name[tuple(comp.scope.location)] = (int(match_groups.get("stage") or 0), match_groups["name"])
+        used_ids.add(comp_id)
+        uid_to_name[tuple(comp.scope.location)] = comp_id
 
         comp.flowir['name'] = uid_to_name[tuple(comp.scope.location)][1]
         comp.flowir['stage'] = uid_to_name[tuple(comp.scope.location)][0]
+
+    if naming_errors:
+        raise experiment.model.errors.DSLInvalidError.from_errors(naming_errors)
 
     complete = experiment.model.frontends.flowir.FlowIRConcrete(
         flowir_0={},
